@@ -20,7 +20,7 @@ RULE = (
     'error mode between constructing and using a parser; explicit configuration steps (preference assignment, addProfile, '
     'defaultProfiles, global error mode) are part of the configuration, not of the hidden state. Each example runs twice in '
     'forked children: full history + probe battery versus only the configuration steps + probe battery; the battery '
-    '(parse+serialise of 14 reference texts, validity flags, 17 malformed texts through a raising parser with exception type, '
+    '(parse+serialise of 17 reference texts, validity flags, 17 malformed texts through a raising parser with exception type, '
     'message, line and column as the result, parseStyle, one DOM edit that must raise and one that must '
     'succeed) must give identical results. Around every parse call the error mode, serializer object and preferences, '
     'profile list and default profiles must be as before, whether it returned or raised; a reused parser must repeat its '
@@ -37,12 +37,13 @@ TEXTS = ['a { color: red }', '@media print and (min-width: 10px), tv { a { top: 
          '@page :first { margin: 1cm; @top-left { content: "x" } }', 'a:not(.b)::before, c[d|="e"] { f: url(g.png) }',
          '@namespace p "u"; p|a { top: 0 }', '@font-face { font-family: "F"; src: url(f.woff) }', '@foo bar { baz }',
          'a { -demo-size: 3px; color: red; box-shadow: none; opacity: .5; color: 4 }', '/* c */ a { /* d */ }',
-         '@variables { x: 1px } a { width: var(x) }', 'a { x: f(1, g(2)) u+0-7f "s" }']
+         '@variables { x: 1px } a { width: var(x) }', 'a { x: f(1, g(2)) u+0-7f "s" }', 'a.x { top: 0 }', 'a { left: 0 }', 'a.x#y { top: 0 } a { top: 1px }']
 MALFORMED = ['a { color: red', 'a { (x) y; b: c }', '@media print and { a {} }', 'a,,b { c: d }', '@import;', 'a { b: rgb(1,2 }',
              '@charset ', 'a { x: y !important @foo }', 'a:not(a b) {}', '@page :x: {}', 'screen and, print', '@media {a{}}',
              'a { b: "c', 'a { b: url(', '}{', '@namespace p "u"; q|a {}', 'a { color: red } @import "late.css";']
 PREFS = [('keepComments', False), ('omitLeadingZero', True), ('resolveVariables', False), ('indent', '\t'), ('keepEmptyRules', True),
-         ('defaultAtKeyword', True), ('minimizeColorHash', False), ('keepAllProperties', False), ('lineSeparator', '')]
+         ('defaultAtKeyword', True), ('minimizeColorHash', False), ('keepAllProperties', False), ('lineSeparator', ''),
+         ('indentSpecificities', True), ('indentSpecificities', True)]
 PROFILE = ('demo profile', {'-demo-size': '{num}px', 'x-demo': '{demo-macro}'}, {'demo-macro': 'a|b'})
 EDITS_BAD = ['mediaText:print print', 'insertRule:@import "x";:1', 'insertRule:a{:0', 'deleteRule:99', 'selectorText:a,,b', 'mediaText:print and',
              'setProperty:color:(', 'namespace-del:zz', 'styleText:a:(', 'property-priority:x']
